@@ -4,16 +4,14 @@
 -/
 import EasyMl.Model.TapeExec
 import EasyMl.Lemmas.Tape
-import Mathlib.Algebra.Field.Defs
-import Mathlib.Algebra.Field.Basic
-import Mathlib.Tactic.Ring
+import EasyMl.Lemmas.DivLaws
 
 namespace EasyMl
 open Spec
 
 set_option linter.unusedSectionVars false
 
-variable {R : Type} [Field R] [RealFns R]
+variable {R : Type} [CommRing R] [Div R] [RealFns R]
 
 /-- the duals of a run agree with the specification's values and derivatives -/
 def DualInv (ds : List (Dual R)) (vs ts : List R) : Prop :=
@@ -37,7 +35,7 @@ theorem dual_sum_foldl (as : List Nat) (ds : List (Dual R)) (vs ts : List R)
     rw [ih, h a]
 
 theorem execDual_step (i : Nat) (env : Nat → R) (ds : List (Dual R)) (vs ts : List R)
-    (hinv : DualInv ds vs ts) (ins : Instr R) :
+    (hinv : DualInv ds vs ts) (ins : Instr R) (hd : ins.usesDiv = false ∨ DivLaws R) :
     ins.execDual i env ds = ⟨ins.val env vs, ins.tan (unitSeed i) vs ts⟩ := by
   obtain ⟨hl, _, h⟩ := hinv
   cases ins with
@@ -62,8 +60,21 @@ theorem execDual_step (i : Nat) (env : Nat → R) (ds : List (Dual R)) (vs ts : 
     rw [dual_sum_foldl as ds vs ts h]
     rfl
   | real f a =>
-    cases f <;> simp only [Instr.execDual, h a, Instr.val, Instr.tan, RealFn.app, RealFn.deriv,
-      Dual.sin, Dual.cos, Dual.exp, Dual.ln, Dual.sqrt] <;> apply Dual.ext' <;> simp <;> ring
+    cases f
+    · simp only [Instr.execDual, h a, Instr.val, Instr.tan, RealFn.app, RealFn.deriv, Dual.sin]
+      apply Dual.ext' <;> simp; ring
+    · simp only [Instr.execDual, h a, Instr.val, Instr.tan, RealFn.app, RealFn.deriv, Dual.cos]
+      apply Dual.ext' <;> simp; ring
+    · simp only [Instr.execDual, h a, Instr.val, Instr.tan, RealFn.app, RealFn.deriv, Dual.exp]
+      apply Dual.ext' <;> simp; ring
+    · simp only [Instr.execDual, h a, Instr.val, Instr.tan, RealFn.app, RealFn.deriv, Dual.ln]
+      apply Dual.ext'
+      · rfl
+      · exact (divLaws_of hd rfl).div_eq _ _
+    · simp only [Instr.execDual, h a, Instr.val, Instr.tan, RealFn.app, RealFn.deriv, Dual.sqrt]
+      apply Dual.ext'
+      · rfl
+      · exact (divLaws_of hd rfl).div_eq _ _
   | pow a b =>
     simp only [Instr.execDual, h a, h b, Instr.val, Instr.tan, Dual.pow, powDx, powDy]
     apply Dual.ext' <;> simp; ring
@@ -103,16 +114,18 @@ theorem DualInv.snoc {ds : List (Dual R)} {vs ts : List R} (hinv : DualInv ds vs
         getD_of_le _ _ (by simp; omega)]
       rfl
 
-theorem dual_run (i : Nat) (env : Nat → R) (p : Prog R) :
+theorem dual_run (i : Nat) (env : Nat → R) (p : Prog R) (hd : DivOK p) :
     ∀ (ds : List (Dual R)) (vs ts : List R), DualInv ds vs ts →
       DualInv (Prog.execDualFrom i env p ds) (Prog.evalFrom env p vs)
         (Prog.tangentsFrom env (unitSeed i) p vs ts).2 := by
   induction p with
   | nil => intro ds vs ts h; exact h
   | cons ins rest ih =>
+    obtain ⟨hd1, hd2⟩ := hd.cons
+    have ih := ih hd2
     intro ds vs ts h
     simp only [Prog.execDualFrom, Prog.evalFrom, Prog.tangentsFrom]
-    rw [execDual_step i env ds vs ts h ins]
+    rw [execDual_step i env ds vs ts h ins hd1]
     exact ih _ _ _ (h.snoc _ _)
 
 theorem execDualFrom_length (i : Nat) (env : Nat → R) (p : Prog R) (ds : List (Dual R)) :
